@@ -16,7 +16,7 @@ func aggCfg(id, tier string) agg.Config {
 			"ce mod acoin u1 u1 1", "ce mod bcoin u1 u2 3", "ce mod acoin u1 blocked 1", "ce mod acoin u1 u1 20", "ce mod ccoin u1 u1 1",
 			"ce ext v:ext u1 u1 3", "ce ext v:ext u1 u2 11", "ce ext acoin u1 u1 1", "cc v:ext u1 u2 1", "cc v:ext u1 u1 4",
 			"ce steal v:steal u1 u1 2", "ce delayed v:delayed u1 u1 2",
-			"gov toggle acoin", "gov toggle ext", "gov enable false", "gov enable true", "reimport",
+			"gov toggle acoin", "gov toggle ext", "gov enable false", "gov enable true", "gov hook false", "reimport",
 		}}
 		if tier == "thorough" {
 			c.Depth = 10
